@@ -28,6 +28,23 @@
                    differs from _cache_jitter_val and records it (_variational_strategy.py:328-333)
      p_restore   ExactGP.get_fantasy_model restores train_inputs / train_targets / likelihood /
                  prediction_strategy of the SOURCE model in a finally block  exact_gp.py:244-251
+     p_shape     VariationalStrategy.forward drops the memoised Cholesky factor of K_ZZ when its
+                 FULL shape (batch dimensions included) differs from that of the K_ZZ of the current
+                 call  variational_strategy.py:203-211
+
+   A prediction CONFIGURATION c encodes the settings of the call AND the batch shape of the test
+   inputs: [cfg_of c] = c mod 4 selects the settings (family specific, below), [shape_of c] = c / 4
+   the batch shape (0: un-batched n x d, 1: 2 x n x d, 2: 3 x n x d).  The only cache whose content
+   depends on the input batch shape is the variational Cholesky factor: _VariationalStrategy.__call__
+   expands the inducing points to the batch shape of the inputs, K_ZZ and its factor L inherit it, and
+   the memo ("cholesky_factor", ignore_args=True) holds ONE factor whatever the arguments were.  It
+   is modelled as a single-entry slot keyed by the batch shape and replaced on a key miss (point
+   p_shape), exactly like the KISS-GP covar_cache pair keyed by fast_pred_samples (point p_pop).
+   What history independence needs of it: the factor consulted by a call must have been computed
+   for the batch shape of THAT call (key = shape_of c) from the current parameters under the current
+   jitter (tag).  The caches of the exact prediction strategies are functions of the training data
+   only (their batch shape is that of the training inputs), so for those families the uses do not
+   depend on [shape_of c].
 
    A cache entry carries a [tag]: the (parameter version, data version, unkeyed-settings value)
    it was computed from.  The unkeyed-settings value of a configuration is [f_ck fam c]; it only
@@ -80,8 +97,14 @@ Record family := mkFam {
 
 Record points := mkPts {
   p_to_train : bool; p_to_eval : bool; p_load : bool; p_setdata : bool; p_hook : bool;
-  p_call : bool; p_kernel : bool; p_gp : bool; p_vs : bool; p_pop : bool; p_stale : bool; p_restore : bool }.
-Definition all_on := mkPts true true true true true true true true true true true true.
+  p_call : bool; p_kernel : bool; p_gp : bool; p_vs : bool; p_pop : bool; p_stale : bool; p_restore : bool;
+  p_shape : bool }.
+Definition all_on := mkPts true true true true true true true true true true true true true.
+
+(* configuration = settings index + 4 * input-batch-shape index *)
+Definition NCFG := 4. Definition NSHAPE := 3.
+Definition cfg_of (c : nat) : nat := Nat.modulo c NCFG.
+Definition shape_of (c : nat) : nat := Nat.div c NCFG.
 
 (* [sck]: the settings value recorded by the staleness guard; [lost]: the object has lost its
    training data / likelihood / strategy (only reachable when p_restore is off) *)
@@ -127,6 +150,11 @@ Definition new_tag (fam : family) (s : state) (ck : nat) (c : cache) (u : use) :
   | None => own_tag fam s ck (u_slot u)
   end.
 
+(* which code site replaces a single-entry memo whose key differs from the requested one: the shape
+   guard of VariationalStrategy.forward for the Cholesky factor, the pop in
+   InterpolatedPredictionStrategy.exact_predictive_covar for everything else *)
+Definition rekey (pts : points) (sl : nat) : bool := if sl =? CHOL then p_shape pts else p_pop pts.
+
 Definition consult (pts : points) (fam : family) (s : state) (ck : nat) (g : gstate) (c : cache) (u : use)
   : cache * entry :=
   let fresh_e := mkEntry (u_slot u) (u_key u) (new_tag fam s ck c u) g in
@@ -134,7 +162,7 @@ Definition consult (pts : points) (fam : family) (s : state) (ck : nat) (g : gst
     match lookup_slot (u_slot u) c with
     | Some e =>
         if e_key e =? u_key u then (c, e)
-        else if p_pop pts then (fresh_e :: drop [u_slot u] c, fresh_e) else (c, e)
+        else if rekey pts (u_slot u) then (fresh_e :: drop [u_slot u] c, fresh_e) else (c, e)
     | None => (fresh_e :: c, fresh_e)
     end
   else
@@ -318,10 +346,10 @@ Fixpoint admissible (pts : points) (fam : family) (s : state) (h : list op) : bo
 Definition U (sl k : nat) := mkUse sl k false.
 
 (* exact GP, DefaultPredictionStrategy.
-   cfg 0 default; 1 fast_pred_var; 2 observation_nan_policy('mask'); 3 eager kernels *)
+   settings 0 default; 1 fast_pred_var; 2 observation_nan_policy('mask'); 3 eager kernels *)
 Definition fam_exact : family := {|
-  f_ncfg := 4;
-  f_uses := fun c => match c with
+  f_ncfg := NCFG * NSHAPE;
+  f_uses := fun c => match cfg_of c with
                      | 1 => [U STRAT 0; U MEAN 0; U COVAR 0]
                      | 2 => [U STRAT 0; U MEAN 1]
                      | _ => [U STRAT 0; U MEAN 0]
@@ -335,11 +363,11 @@ Definition fam_exact : family := {|
   f_ck := fun _ => 0; f_ck_slots := []; f_ck_drop := []; f_ck_train := false |}.
 
 (* KISS-GP: GridInterpolationKernel + InterpolatedPredictionStrategy.
-   cfg 0 default; 1 fast_pred_var; 2 fast_pred_var + fast_pred_samples; 3 skip_posterior_variances.
+   settings 0 default; 1 fast_pred_var; 2 fast_pred_var + fast_pred_samples; 3 skip_posterior_variances.
    mean_cache is not keyed; the covar_cache pair is a single entry keyed by fast_pred_samples. *)
 Definition fam_kiss : family := {|
-  f_ncfg := 4;
-  f_uses := fun c => match c with
+  f_ncfg := NCFG * NSHAPE;
+  f_uses := fun c => match cfg_of c with
                      | 1 => [U KMAT 0; U STRAT 0; U MEAN 0; mkUse COVAR 0 true]
                      | 2 => [U KMAT 0; U STRAT 0; U MEAN 0; mkUse COVAR 1 true]
                      | _ => [U KMAT 0; U STRAT 0; U MEAN 0]
@@ -367,13 +395,13 @@ Definition fam_kiss_cached_copy : family := {|
   f_ck_train := f_ck_train fam_kiss |}.
 
 (* SGPR: InducingPointKernel + SGPRPredictionStrategy.
-   cfg 0 default; 1 fast_pred_var; 2 nan policy 'mask'; 3 sgpr_diagonal_correction(False):
+   settings 0 default; 1 fast_pred_var; 2 nan policy 'mask'; 3 sgpr_diagonal_correction(False):
    the train-train covariance the strategy holds (and mean_cache / covar_cache derived from it)
    is evaluated under the setting active when the strategy was built; no dictionary key records
    it (f_ck 3 = 1), the strategy records it and is rebuilt by ExactGP.__call__ when it differs. *)
 Definition fam_sgpr : family := {|
-  f_ncfg := 4;
-  f_uses := fun c => match c with
+  f_ncfg := NCFG * NSHAPE;
+  f_uses := fun c => match cfg_of c with
                      | 2 => [U KMAT 0; U STRAT 0; U MEAN 1; U COVAR 0]
                      | _ => [U KMAT 0; U STRAT 0; U MEAN 0; U COVAR 0]
                      end;
@@ -383,25 +411,28 @@ Definition fam_sgpr : family := {|
   f_ddep := fun sl => (sl =? STRAT) || (sl =? MEAN) || (sl =? COVAR);
   f_strat_slots := [STRAT; MEAN; COVAR]; f_hook_slots := [MEAN; COVAR];
   f_kernel_slots := [KMAT]; f_vs_slots := []; f_has_data := true;
-  f_ck := fun c => match c with 3 => 1 | _ => 0 end;
+  f_ck := fun c => match cfg_of c with 3 => 1 | _ => 0 end;
   f_ck_slots := [STRAT; MEAN; COVAR]; f_ck_drop := [STRAT; MEAN; COVAR]; f_ck_train := false |}.
 
 (* variational GP (VariationalStrategy / UnwhitenedVariationalStrategy, any distribution).
-   cfg 0 default; 1 skip_posterior_variances; 2 eager kernels;
+   settings 0 default; 1 skip_posterior_variances; 2 eager kernels;
    3 variational_cholesky_jitter(non-default): the cached Cholesky factor is computed with the
    jitter active when it was first needed and cached with ignore_args=True (f_ck 3 = 1);
    __call__ compares the jitter with _cache_jitter_val, clears the memo when it differs, and
-   records it (also in training mode, where the memo is cleared anyway). *)
+   records it (also in training mode, where the memo is cleared anyway).
+   The Cholesky factor is ONE memo entry that carries the batch shape of the inputs it was computed
+   for: single-entry slot keyed by [shape_of c] (see the header).  Training-mode calls clear the memo
+   first and therefore always compute the factor for their own inputs. *)
 Definition fam_var (fant : bool) : family := {|
-  f_ncfg := 4;
-  f_uses := fun _ => [U VDIST 0; U CHOL 0];
+  f_ncfg := NCFG * NSHAPE;
+  f_uses := fun c => [U VDIST 0; mkUse CHOL (shape_of c) true];
   f_train_uses := [U VDIST 0; U CHOL 0]; f_prior_uses := [];
   f_fant_uses := [U VDIST 0; U PSEUDO 0]; f_fant_req := None; f_fant_ok := fant; f_fant_copy := [];
   f_parent := fun _ => None;
   f_ddep := fun _ => false;
   f_strat_slots := []; f_hook_slots := [];
   f_kernel_slots := []; f_vs_slots := [VDIST; CHOL; PSEUDO]; f_has_data := false;
-  f_ck := fun c => match c with 3 => 1 | _ => 0 end;
+  f_ck := fun c => match cfg_of c with 3 => 1 | _ => 0 end;
   f_ck_slots := [CHOL]; f_ck_drop := [VDIST; CHOL; PSEUDO]; f_ck_train := true |}.
 
 Definition family_of (k : nat) : family :=
@@ -412,19 +443,20 @@ Definition family_of (k : nat) : family :=
 Definition points_without (k : nat) : points :=
   let T := true in let F := false in
   match k with
-  | 1 => mkPts F T T T T T T T T T T T
-  | 2 => mkPts T F T T T T T T T T T T
-  | 3 => mkPts T T F T T T T T T T T T
-  | 4 => mkPts T T T F T T T T T T T T
-  | 5 => mkPts T T T T F T T T T T T T
-  | 6 => mkPts T T T T T F T T T T T T
-  | 7 => mkPts T T T T T T F T T T T T
-  | 8 => mkPts T T T T T T T F T T T T
-  | 9 => mkPts T T T T T T T T F T T T
-  | 10 => mkPts T T T T T T T T T F T T
-  | 11 => mkPts F F T T T T T T T T T T   (* Module.train override deleted *)
-  | 12 => mkPts T T T T T T T T T T F T   (* no staleness guards (the code before fixes 2c041f6 / 4d5d0c3) *)
-  | 13 => mkPts T T T T T T T T T T T F   (* get_fantasy_model without the finally block (before fix 5e27225) *)
+  | 1 => mkPts F T T T T T T T T T T T T
+  | 2 => mkPts T F T T T T T T T T T T T
+  | 3 => mkPts T T F T T T T T T T T T T
+  | 4 => mkPts T T T F T T T T T T T T T
+  | 5 => mkPts T T T T F T T T T T T T T
+  | 6 => mkPts T T T T T F T T T T T T T
+  | 7 => mkPts T T T T T T F T T T T T T
+  | 8 => mkPts T T T T T T T F T T T T T
+  | 9 => mkPts T T T T T T T T F T T T T
+  | 10 => mkPts T T T T T T T T T F T T T
+  | 11 => mkPts F F T T T T T T T T T T T   (* Module.train override deleted *)
+  | 12 => mkPts T T T T T T T T T T F T T   (* no staleness guards (the code before fixes 2c041f6 / 4d5d0c3) *)
+  | 13 => mkPts T T T T T T T T T T T F T   (* get_fantasy_model without the finally block (before fix 5e27225) *)
+  | 14 => mkPts T T T T T T T T T T T T F   (* VariationalStrategy.forward keeps a Cholesky factor of another batch shape *)
   | _ => all_on
   end.
 
